@@ -9,7 +9,9 @@
 
 use super::fw::*;
 use crate::prelude::*;
+use crate::private::{Check, Emit};
 use crate::span::Span;
+use crate::Parser;
 use core::ops::Range;
 
 pub fn h_span_simple() {
@@ -69,8 +71,81 @@ pub fn h_span_range_tuple() {
     vcover!(a < b && x < y, "tuple span: two non-empty spans");
 }
 
+// ------------------------------------------------------------------ one_of / none_of over other set types
+// h_prim.rs proves one_of / none_of with an array as the set. The set is consulted through `Seq::contains`,
+// which every set type implements on its own (src/container.rs): ranges, a single token, a slice.
+// KIND: 0 = a..b, 1 = a..=b, 2 = a.., 3 = single token, 4 = &[a, b]; NEG: none_of instead of one_of.
+fn tok_here_x<T: SymTok>(inp: &mut IR<'_, T, VErr>, s0: &S0) -> Option<T> {
+    if s0.pos < s0.len {
+        Some(inp.cache.tok_at(s0.pos))
+    } else {
+        None
+    }
+}
+
+pub fn h_set_kinds<M: VMode, const KIND: usize, const NEG: bool>() {
+    run::<u8, VErr, (), _>(|inp, s0| {
+        let (a, b) = (ch::any_u8(), ch::any_u8());
+        let pair: &'static [u8; 2] = alloc::boxed::Box::leak(alloc::boxed::Box::new([a, b]));
+        let r = match (KIND, NEG) {
+            (0, false) => one_of::<Range<u8>, SymIn<u8>, X<VErr>>(a..b).gov::<M>(inp),
+            (0, true) => none_of::<Range<u8>, SymIn<u8>, X<VErr>>(a..b).gov::<M>(inp),
+            (1, false) => one_of::<core::ops::RangeInclusive<u8>, SymIn<u8>, X<VErr>>(a..=b).gov::<M>(inp),
+            (1, true) => none_of::<core::ops::RangeInclusive<u8>, SymIn<u8>, X<VErr>>(a..=b).gov::<M>(inp),
+            (2, false) => one_of::<core::ops::RangeFrom<u8>, SymIn<u8>, X<VErr>>(a..).gov::<M>(inp),
+            (2, true) => none_of::<core::ops::RangeFrom<u8>, SymIn<u8>, X<VErr>>(a..).gov::<M>(inp),
+            (3, false) => one_of::<u8, SymIn<u8>, X<VErr>>(a).gov::<M>(inp),
+            (3, true) => none_of::<u8, SymIn<u8>, X<VErr>>(a).gov::<M>(inp),
+            (_, false) => one_of::<&[u8], SymIn<u8>, X<VErr>>(&pair[..]).gov::<M>(inp),
+            (_, true) => none_of::<&[u8], SymIn<u8>, X<VErr>>(&pair[..]).gov::<M>(inp),
+        };
+        let here = tok_here_x(inp, &s0);
+        let member = match here {
+            Some(t) => match KIND {
+                0 => a <= t && t < b,
+                1 => a <= t && t <= b,
+                2 => a <= t,
+                3 => t == a,
+                _ => t == a || t == b,
+            },
+            None => false,
+        };
+        let accept = here.is_some() && (member != NEG);
+        let s = snap(inp);
+        let alt = alt_full(inp);
+        vassert!(r.is_ok() == accept, "C01/set_kinds.accepts-iff-token-here-is-in-the-set-or-not-for-none_of");
+        vassert!(s.nsec == s0.nsec, "C05/set_kinds.emits-nothing");
+        vassert!(s.believed == s.pos, "C18/set_kinds.inspector-at-position");
+        if accept {
+            vcover!(true, "set kinds: token accepted");
+            vassert!(s.pos == s0.pos + 1, "C01/set_kinds.consumes-exactly-one-token");
+            vassert!(ok_with::<M, _>(&r, here.unwrap_or(0)), "C01/set_kinds.output-is-the-token");
+            vassert!(alt.map(|x| (x.0, x.1.id)) == s0.alt, "C06/set_kinds.success-leaves-pending-error-alone");
+        } else {
+            vcover!(here.is_none(), "set kinds: end of input");
+            vcover!(here.is_some(), "set kinds: token rejected");
+            vassert!(s.pos == s0.pos, "C01/set_kinds.failure-restores-position");
+            vassert!(alt.is_some(), "C20/set_kinds.failure-leaves-pending-error");
+            let (prio, span, found) = prim_alt_spec(&s0, alt, here.map(|t| t.code()));
+            vassert!(prio, "C06/set_kinds.failure-offered-at-entry-position-by-priority");
+            vassert!(span, "C06/set_kinds.error-span-is-the-offending-token");
+            vassert!(found, "C06/set_kinds.found-is-token-at-span-start-none-only-at-end");
+        }
+    });
+}
+
 harnesses! {
     span_simple_algebra = h_span_simple;
     span_union_algebra = h_span_union;
     span_range_tuple_algebra = h_span_range_tuple;
+    one_of_range_emit = h_set_kinds::<Emit, 0, false>;
+    none_of_range_check = h_set_kinds::<Check, 0, true>;
+    one_of_range_inclusive_check = h_set_kinds::<Check, 1, false>;
+    none_of_range_inclusive_emit = h_set_kinds::<Emit, 1, true>;
+    one_of_range_from_emit = h_set_kinds::<Emit, 2, false>;
+    none_of_range_from_emit = h_set_kinds::<Emit, 2, true>;
+    one_of_single_emit = h_set_kinds::<Emit, 3, false>;
+    none_of_single_check = h_set_kinds::<Check, 3, true>;
+    one_of_slice_set_emit = h_set_kinds::<Emit, 4, false>;
+    none_of_slice_set_emit = h_set_kinds::<Emit, 4, true>;
 }
